@@ -95,8 +95,8 @@ func init() {
 	mon.Register(&mon.Check{
 		ID:               "C02",
 		CrashIsViolation: true,
-		Rule: "evaluations = Lint*Ex calls on accepted inputs, each followed by a direct re-execution (fresh instance, configure, CheckApplies, Execute under the harness's own recover) of every lint the framework let through; distinct_nontrivial (de-duplicated by a hash of the DER bytes within each worker process) = distinct accepted inputs (seeds + parser-accepted hostile mutants + directed family members) on which >= 1 rule body was executed. Refuting events: a panic in any directly driven lint, a framework recovered-panic report, a panic escaping CRL/OCSP linting, a fatal that the rule body does not itself return.",
-		Assumptions: []string{"inputs the zcrypto / x-crypto parsers reject or panic on are outside the quantifier", "reach: only code the seeded workloads execute; lints whose Execute was never reached are listed in the evidence"},
+		Rule:             "evaluations = Lint*Ex calls on accepted inputs, each followed by a direct re-execution (fresh instance, configure, CheckApplies, Execute under the harness's own recover) of every lint the framework let through; distinct_nontrivial (de-duplicated by a hash of the DER bytes within each worker process) = distinct accepted inputs (seeds + parser-accepted hostile mutants + directed family members) on which >= 1 rule body was executed. Refuting events: a panic in any directly driven lint, a framework recovered-panic report, a panic escaping CRL/OCSP linting, a fatal that the rule body does not itself return.",
+		Assumptions:      []string{"inputs the zcrypto / x-crypto parsers reject or panic on are outside the quantifier", "reach: only code the seeded workloads execute; lints whose Execute was never reached are listed in the evidence"},
 		Setup: func(c *mon.Ctx) error {
 			if err := setupCommon(c); err != nil {
 				return err
@@ -164,4 +164,3 @@ func init() {
 
 var _ = strings.Contains
 var _ = corpus.Cert
-
